@@ -181,7 +181,7 @@ def run(ctx):
 
     # ---- 2. random ----------------------------------------------------------------------------------------------------------
     sizes = [1, 2, 3, 5, 8, 20, 60, 200]
-    n_rounds = 25 if ctx.quick else 400
+    n_rounds = 25 if ctx.quick else 2000
     ctx.bound("random: %d rounds x sizes %s, 1-3 chromosomes, random tagged rGFAs, files in which every alignment touches a reference node / "
               "at least one touches none / unconstrained, optional fields none..rich, plain/BGZF input x plain/--bgzip output x default .gsi / --outind" % (n_rounds, sizes))
     budget = 45 if ctx.quick else 600
